@@ -9,7 +9,7 @@ from encode import encode
 
 ID = 'C06'
 DOMAIN = 'gin/serialize'
-PROPS_FILES = ['Gin/Props/C06.lean', 'Gin/Props/C06b.lean', 'Gin/Props/C06c.lean', 'Gin/Props/C06d.lean']
+PROPS_FILES = ['Gin/Props/C06.lean', 'Gin/Props/C06b.lean', 'Gin/Props/C06c.lean', 'Gin/Props/C06d.lean', 'Gin/Props/C06e.lean']
 ANCHOR_FILES = ['config.py', 'config_parser.py', 'selector_map.py']
 RULE = ('3-5 registered probes with case-colliding and suffix-sharing names (incl. a class with a registered method), 3-12 '
         'bindings reached by programmatic binding and by parsing (nested values, long strings and bytes that pprint '
